@@ -125,6 +125,14 @@ def explore(role: str, max_sends: int) -> t.Dict[str, t.Any]:
                         if (exc is None) != (pexc is None):
                             flag(f"pending-bytes-change-acceptance:{ev[1]}", f"{ev[1]} is {'accepted' if exc is None else 'refused'} with {pending} bytes pending but the opposite with none", h2)
                             bad = True
+                        if exc is None and ev[0] == "call":
+                            want = None
+                            den = sess.denotes(role, ev, sess._first_id(enc) or 0)
+                            if den is not None:
+                                want = sess.reference_encoding(den)
+                            if want is not None and want != enc:
+                                flag(f"send-encodes-other-message:{ev[1]}", f"accepted {ev[1]}({ev[2]}) put {enc.hex()[:70]} on the wire; the call denotes {A.src(den)[:120]} = {want.hex()[:70]}", h2)
+                                bad = True
                         if exc is None:
                             units, used = ber.frame(enc)
                             if len(units) == 1 and used == len(enc) and enc:
@@ -157,6 +165,9 @@ def explore(role: str, max_sends: int) -> t.Dict[str, t.Any]:
 
 def replay_case(case: t.Dict[str, t.Any]) -> t.Tuple[bool, str]:
     role = case["role"]
+    if case["history"] and not isinstance(case["history"][0], list) or (case["history"] and case["history"][0] and isinstance(case["history"][0], list) and isinstance(case["history"][0][0], str) and case["history"][0][0] not in ("call", "callbad", "recv", "drain", "recv2", "recvpair", "recvpeer", "garbage")):
+        steps, viol = long_drain_runs(role)
+        return (not viol), "\n".join(f"  {k}: {e['what']}" for k, e in viol.items()) or "large-message and held-partial scenarios pass"
     s = sess.new_session(role)
     stream, drained = b"", 0
     lines = []
@@ -215,7 +226,7 @@ def long_drain_runs(role: str) -> t.Tuple[int, t.Dict[str, t.Dict[str, t.Any]]]:
                 e["count"] += 1
 
         n = 0
-        for k in range(60):
+        for k in range(300 if cname == "blocks" else 60):
             if role == "client":
                 evs = [("call", "search" if k % 2 else "ext", -1)]
             else:
@@ -228,6 +239,12 @@ def long_drain_runs(role: str) -> t.Tuple[int, t.Dict[str, t.Dict[str, t.Any]]]:
                 except BaseException:  # noqa: BLE001
                     pass
                 enc = probe.data_to_send()
+                if enc and ev[0] == "call":
+                    den = sess.denotes(role, ev, sess._first_id(enc) or 0)
+                    want = sess.reference_encoding(den) if den is not None else None
+                    if want is not None and want != enc:
+                        e = viol.setdefault(f"long-run-send-encodes-other-message:{role}:{ev[1]}", {"what": f"[{cname}] operation #{k + 1}: {ev[1]} put {enc.hex()[:60]} on the wire; the call denotes {want.hex()[:60]}", "history": list(hist) + [list(ev)], "count": 0})
+                        e["count"] += 1
                 try:
                     sess.apply_event(role, s, ev)
                     if ev[0] == "call":
@@ -250,6 +267,62 @@ def long_drain_runs(role: str) -> t.Tuple[int, t.Dict[str, t.Dict[str, t.Any]]]:
                     e["count"] += 1
                 drained += len(exp)
                 check(f"data_to_send({amt})")
+    # large messages queued back to back, and one big drain while a partial incoming message is held
+    big = b"v" * 70000
+    for pattern in ("BB", "BSB", "SBB", "BBS", "BBB"):
+        for drains in ((), (0,), (1,), (65536,), (None,)):
+            s = L.LDAPClient() if role == "client" else L.LDAPServer()
+            if role == "server":
+                for i in range(1, 6):
+                    s.receive(sess.make_msg("SearchReq", i).pack(sess.OPT))
+            expect = b""
+            for j, ch in enumerate(pattern):
+                val = big if ch == "B" else b"s"
+                if role == "client":
+                    mid = s.extended_request("1.2", val)
+                    m = L.ExtendedRequest(mid, [], "1.2", val)
+                else:
+                    s.search_result_entry(j + 1, "cn=e", [L.PartialAttribute("a", [val])])
+                    m = L.SearchResultEntry(j + 1, [], "cn=e", [L.PartialAttribute("a", [val])])
+                expect += sess.reference_encoding(m) or b""
+                if j == 0:
+                    for d in drains:
+                        got = s.data_to_send(d)
+                        if got != (expect if d is None else expect[:d]):
+                            viol.setdefault(f"big-message-drain-wrong:{role}", {"what": f"pattern {pattern}, data_to_send({d}) returned {len(got)} bytes", "history": [pattern, list(map(str, drains))], "count": 1})
+                        expect = expect[len(got):]
+            steps += len(pattern) + len(drains)
+            rest = s.data_to_send()
+            if rest != expect:
+                e = viol.setdefault(f"big-messages-lost-or-altered:{role}:{pattern}", {"what": f"messages {pattern} (B = 70 000-octet value) sent back to back with drains {drains} after the first: {len(rest)} bytes drained at the end, {len(expect)} expected", "history": [pattern, list(map(str, drains))], "count": 0})
+                e["count"] += 1
+    # a drain -- of any size -- must not disturb a partly received message
+    peer = sess.make_msg("ExtResp" if role == "client" else "ExtReq", 1).pack(sess.OPT)
+    for amount in (None, 0, 1, 65535, 65536, 65537, 10**6):
+        for nbig in (0, 1, 2):
+            s = L.LDAPClient() if role == "client" else L.LDAPServer()
+            if role == "client":
+                s.extended_request("1.2")
+                s.data_to_send()
+                for _ in range(nbig):
+                    s.extended_request("1.3", big)
+            else:
+                s.receive(sess.make_msg("SearchReq", 9).pack(sess.OPT))
+                for _ in range(nbig):
+                    s.search_result_entry(9, "cn=e", [L.PartialAttribute("a", [big])])
+            first = s.receive(peer[:5])
+            state = s.state
+            s.data_to_send(amount)
+            steps += 3
+            try:
+                got = first + s.receive(peer[5:])
+                ok = len(got) == 1 and s.state == state
+                why = f"returned {len(got)} messages, state {s.state.name}"
+            except BaseException as x:  # noqa: BLE001
+                ok, why = False, f"raised {type(x).__name__}: {x}"
+            if not ok:
+                e = viol.setdefault(f"drain-disturbed-partial-receive:{role}", {"what": f"a message half received, then data_to_send({amount}) with {nbig} 70 000-octet message(s) pending, then the rest of the message: {why}", "history": ["partial", str(amount), nbig], "count": 0})
+                e["count"] += 1
     return steps, viol
 
 
